@@ -14,10 +14,14 @@ def mk_table(t):
     if t.get("sup") == "tuple":
         rows = tuple(rows)
     ws = [fl(w) for w in t["w"]]
+    if t.get("int_w") and all(w == int(w) and abs(w) < 2 ** 53 for w in ws):
+        ws = [int(w) for w in ws]          # integer-typed probability table
+    t["_rows_obj"], t["_ws_obj"] = rows, ws   # the caller's own objects, snapshotted by ft_case
     if t.get("ctor") == "uniform":
         return Pr(rows)
     if t.get("ctor") == "logits":
         ls = [(math.log(w) if w > 0 else -np.inf) for w in ws]
+        t["_ws_obj"] = ls
         return Pr(rows, logits=np.array(ls) if t.get("arr") else ls)
     return Pr(rows, probs=np.array(ws) if t.get("arr") else (tuple(ws) if t.get("sup") == "tuple" else ws))
 
@@ -80,9 +84,14 @@ def ev(e, objs, as_int=False):
     raise ValueError(op)
 
 
+def ser(tb):
+    return ([json.dumps(r, sort_keys=True) for r in tb.support], [fj(x) for x in tb.logits], [fj(x) for x in tb.probs])
+
+
 def ft_case(case):
     import numpy as np
     objs = [mk_table(t) for t in case["tables"]]
+    caller0 = [(json.dumps(list(t["_rows_obj"])), json.dumps([fj(x) for x in t["_ws_obj"]])) for t in case["tables"]]
     if case.get("touch"):
         for tb in objs:
             touch(tb)
@@ -92,7 +101,21 @@ def ft_case(case):
         t2 = ev(case["expr"], objs, case.get("int_scalars", False))     # same objects, second evaluation
     except AssertionError:
         return {"raised": "AssertionError"}
+    first = ser(t)
+    # the operands go on being used (other orders, other operators, a second different expression) ...
+    try:
+        for a in objs:
+            for b2 in objs:
+                _ = (b2 & a, a * 3)
+                if len(a.support) > 0:
+                    _ = a.marginalize(lambda r: dict(r))
+            _ = a & t
+    except AssertionError:
+        pass
+    # ... and the FIRST result, re-read afterwards, must still be what it was
+    stale_ok = ser(t) == first
     after = [([json.dumps(r, sort_keys=True) for r in tb.support], list(map(float, tb.logits))) for tb in objs]
+    caller1 = [(json.dumps(list(t["_rows_obj"])), json.dumps([fj(x) for x in t["_ws_obj"]])) for t in case["tables"]]
     rows = [json.loads(json.dumps(r)) for r in t.support]
     same = (list(map(lambda r: json.dumps(r, sort_keys=True), t.support)) == list(map(lambda r: json.dumps(r, sort_keys=True), t2.support))
             and [fj(x) for x in t.logits] == [fj(x) for x in t2.logits] and [fj(x) for x in t.probs] == [fj(x) for x in t2.probs])
@@ -100,7 +123,8 @@ def ft_case(case):
             "w": [fj(np.exp(l)) for l in t.logits],
             "p": [fj(p) for p in t.probs],
             "probq": [fj(t.prob(r)) for r in rows],
-            "repeat_same": bool(same), "operands_unchanged": before == after}
+            "repeat_same": bool(same), "operands_unchanged": before == after and caller0 == caller1,
+            "first_result_unchanged": bool(stale_ok)}
 
 
 # ---------------------------------------------------------------- grid games
@@ -124,6 +148,10 @@ def build_game(case):
     if case.get("fence_int") and fp == int(fp):
         fp = int(fp)
     kw = {"fence_success_prob": fp}
+    for name in ("goal_reward", "step_cost", "collision_cost"):
+        if case.get(name) is not None:
+            v = fl(case[name])
+            kw[name] = int(v) if (case.get("reward_int") and v == int(v)) else v
     if case.get("collision_prob") is not None:
         kw["collision_prob"] = fl(case["collision_prob"])
     goal = (("G0", ("A0",)), ("G1", ("A1",)), ("G", ("A0", "A1")))
@@ -154,35 +182,60 @@ def reordered(s):
     return {k: {kk: s[k][kk] for kk in reversed(list(s[k].keys()))} for k in reversed(list(s.keys()))}
 
 
+def game_facts(gg):
+    return {"width": gg.width, "height": gg.height, "agent_names": list(gg.agent_names),
+            "goals": [[g["x"], g["y"], list(g["owners"])] for g in gg.goals],
+            "obstacles": [[o["x"], o["y"]] for o in gg.obstacles],
+            "walls": [[w["start"]["x"], w["start"]["y"], w["end"]["x"], w["end"]["y"]] for w in gg.walls],
+            "fences": [[w["start"]["x"], w["start"]["y"], w["end"]["x"], w["end"]["y"]] for w in gg.fences],
+            "init": pos_of(gg, gg.initial_state_dist().support[0])}
+
+
+def dser(gg, d):
+    return [[pos_of(gg, ns), fj(p)] for ns, p in zip(d.support, d.probs)]
+
+
 def gg_case(case):
-    from msdm.domains.gridgame.tabulargridgame import TERMINALSTATE
-    # other games built and used first IN THIS PROCESS (class-level / module-level caches must not leak)
+    import copy
+    from msdm.domains.gridgame import tabulargridgame as tgg
+    problems = []
+
+    def note(what, **kw):
+        if len(problems) < 6:
+            problems.append(dict(what=what, **kw))
+
+    # other games built and used first IN THIS PROCESS (class-level / module-level caches must not leak);
+    # their first answers are kept and re-queried after the main game was used
+    warm = []
     for wc in case.get("warmup", []):
         wg = build_game(wc)
         s0 = wg.initial_state_dist().support[0]
-        for ja in jas(wg):
-            wg.next_state_dist(s0, ja)
+        first = [dser(wg, wg.next_state_dist(s0, ja)) for ja in jas(wg)]
         wg.reachable_states(MAX_STATES=8)
+        warm.append((wc, wg, s0, first))
     gg = build_game(case)
-    facts = {"width": gg.width, "height": gg.height, "agent_names": list(gg.agent_names),
-             "goals": [[g["x"], g["y"], list(g["owners"])] for g in gg.goals],
-             "obstacles": [[o["x"], o["y"]] for o in gg.obstacles],
-             "walls": [[w["start"]["x"], w["start"]["y"], w["end"]["x"], w["end"]["y"]] for w in gg.walls],
-             "fences": [[w["start"]["x"], w["start"]["y"], w["end"]["x"], w["end"]["y"]] for w in gg.fences],
-             "init": pos_of(gg, gg.initial_state_dist().support[0])}
-    reach = list(gg.reachable_states(MAX_STATES=case.get("max_states", 60)))
-    reach = sorted(reach, key=lambda d: json.dumps(d, sort_keys=True))
+    facts = game_facts(gg)
+    maxs = case.get("max_states", 60)
+    allreach = list(gg.reachable_states(MAX_STATES=maxs))
+    complete = len(allreach) <= maxs            # the search was not cut short
+    reach = sorted(allreach, key=lambda d: json.dumps(d, sort_keys=True))
     nterm = sum(1 for s in reach if gg.is_terminal(s))
-    reach = [s for s in reach if not gg.is_terminal(s)][:case.get("max_states", 60)]
-    states = reach + [dict(TERMINALSTATE)]
+    reach = [s for s in reach if not gg.is_terminal(s)][:maxs]
+    states = reach + [dict(tgg.TERMINALSTATE)]
     out = []
     JA = jas(gg)
-    for s in states:
+    kept = []          # distribution OBJECTS of the first state, looked at again at the very end
+    for k, s in enumerate(states):
         rec = {"s": pos_of(gg, s), "is_terminal": bool(gg.is_terminal(s)),
                "is_absorbing": (bool(gg.is_absorbing(s)) if not gg.is_terminal(s) else None), "tr": [], "rew": []}
-        for ja in JA:
-            d = gg.next_state_dist(s, ja)
-            rec["tr"].append([[pos_of(gg, ns), fj(p)] for ns, p in zip(d.support, d.probs)])
+        for j, ja in enumerate(JA):
+            s_in, ja_in = copy.deepcopy(s), copy.deepcopy(ja)
+            d = gg.next_state_dist(s_in, ja_in)
+            if s_in != s or ja_in != ja or list(s_in.keys()) != list(s.keys()):
+                note("next_state_dist changed the caller's state / joint-action dictionaries", state=rec["s"], ja_index=j)
+            rec["tr"].append(dser(gg, d))
+            if k == 0:
+                kept.append((d, dser(gg, d)))
             if gg.is_terminal(s):
                 rr = []
                 for ns in d.support:
@@ -197,11 +250,40 @@ def gg_case(case):
     for k, s in enumerate(states):
         s2 = reordered(s)
         for j, ja in enumerate(JR):
-            d = gg.next_state_dist(s2, ja)
-            again = [[pos_of(gg, ns), fj(p)] for ns, p in zip(d.support, d.probs)]
+            again = dser(gg, gg.next_state_dist(s2, ja))
             if again != out[k]["tr"][j] and len(mism) < 5:
                 mism.append({"state": out[k]["s"], "ja_index": j, "first": out[k]["tr"][j], "again": again})
-    return {"facts": facts, "states": out, "terminal_reachable": nterm > 0, "repeat_mismatch": mism}
+    # the game object and the module constant are what they were
+    if game_facts(gg) != facts:
+        note("the game's parsed layout changed while it was used")
+    if tgg.TERMINALSTATE != {"isTerminal": True}:
+        note("module constant TERMINALSTATE was modified", value=repr(tgg.TERMINALSTATE))
+    for d, ser0 in kept:
+        if dser(gg, d) != ser0:
+            note("a distribution returned earlier changed after later calls")
+    # the same problem constructed a second time in this process, after all of the above
+    gg2 = build_game(case)
+    if game_facts(gg2) != facts:
+        note("second construction of the same game parses differently")
+    for k, s in enumerate(states[:3] + states[-1:]):
+        kk = k if k < len(states[:3]) else len(states) - 1
+        for j, ja in enumerate(JA):
+            if dser(gg2, gg2.next_state_dist(copy.deepcopy(s), copy.deepcopy(ja))) != out[kk]["tr"][j]:
+                note("second construction of the same game answers differently", state=out[kk]["s"], ja_index=j)
+                break
+    # the warm-up games, asked again AFTER the main game was used: old answers, and a state not touched before
+    for wc, wg, s0, first in warm:
+        if [dser(wg, wg.next_state_dist(s0, ja)) for ja in jas(wg)] != first:
+            note("an earlier game answers differently after another game was used", warmup=wc["layout"])
+        fresh = build_game(wc)
+        succ = [ns for ja in jas(wg)[1:6] for ns in wg.next_state_dist(s0, ja).support if not wg.is_terminal(ns) and ns != s0][:2]
+        for ns in succ:
+            for ja in jas(wg)[::4]:
+                if dser(wg, wg.next_state_dist(ns, ja)) != dser(fresh, fresh.next_state_dist(copy.deepcopy(ns), ja)):
+                    note("an earlier game differs from a fresh copy of itself on a state it had not been asked about", warmup=wc["layout"])
+                    break
+    return {"facts": facts, "states": out, "terminal_reachable": nterm > 0, "repeat_mismatch": mism,
+            "reach_complete": bool(complete), "n_visited": len(allreach), "problems": problems}
 
 
 def one(case, pl):
